@@ -264,3 +264,33 @@ def c09_table_rows(tier, rng):
         shutil.rmtree(d, ignore_errors=True)
     return {"obligations": obl, "discharged": dis, "violations": viol, "cases": obl, "exhaustive": True,
             "bound": "tables of <= 3 rows over 9 row shapes x 4 column layouts", "samples": [{"rows": ["r1\tg1", "r2"], "read_column": 0, "group_column": 1}]}
+
+
+@finite("C09.tag_types", ["C09"], note="the real AlignmentTagReadGrouper on pysam records whose tag is a string, an integer, a float, a character or "
+        "absent: the group id is the tag value as a string (NA when absent) and is what gets registered; group ids must be strings because they "
+        "are serialised with write_string")
+def c09_tag_types(tier, rng):
+    import pysam
+    rg = native.repo_import("src/read_groups.py")
+    obl = dis = 0
+    viol = []
+    for tag, value, vt in (("RG", "g1", None), ("RG", "cell 7", None), ("NM", 3, "i"), ("XI", 0, "i"), ("XF", 2.5, "f"), ("XC", "A", "A"), ("RG", None, None)):
+        obl += 1
+        a = pysam.AlignedSegment()
+        a.query_name = "r"
+        if value is not None:
+            a.set_tag(tag, value, value_type=vt) if vt else a.set_tag(tag, value)
+        g = rg.AlignmentTagReadGrouper(tag)
+        try:
+            got = g.get_group_id(a)
+            want = "NA" if value is None else str(value)
+            ok = isinstance(got, str) and got == want and g.read_groups == {want}
+        except Exception as e:
+            got, ok = "%s: %s" % (type(e).__name__, e), False
+        if ok:
+            dis += 1
+        else:
+            viol.append({"obligation": "C09.tag_types.%s_%s" % (tag, type(value).__name__), "inputs": {"tag": tag, "value": value},
+                         "observed": repr(got), "required": "the tag value as a string, registered as the read's group"})
+    return {"obligations": obl, "discharged": dis, "violations": viol, "cases": obl, "exhaustive": True, "bound": "7 tag shapes",
+            "samples": [{"tag": "NM", "value": 3}]}
